@@ -112,6 +112,7 @@ Eval(e, F, hp) ==
                      IN hp[d.al].cells[d.off + DotOff(ix, d.st, Len(ix)) + 1]
     [] e.k = "rcfg" -> hp[0 - e.c].cells[1]
     [] e.k = "stride" -> F.bufs[e.n].st[e.dim + 1]
+    [] e.k = "illtyped" -> Poison      \* (Chk traps before a statement evaluates one; assertions containing one are not exported)
     [] e.k = "neg" -> LET a == Eval(e.a, F, hp) IN
                       IF e.num THEN Num("-", 0, a) ELSE 0 - a
     [] e.k = "ext" -> Ext(e.f, e.fid, [j \in 1..Len(e.args) |-> Eval(e.args[j], F, hp)])
